@@ -727,6 +727,12 @@ pub fn par_x(rng: &mut Rng, size: usize, out: &mut Vec<String>) {
             t, q, n, end_err as u8, ri_fail as u8, o(ds_fail), o(stop), cont as u8, rng.next() % 1_000_000
         ));
     }
+    // the corners of "every thread count, every queue length": queue length 0 with a consumer that never asks / that stops
+    // before asking (fine), zero worker threads, and – last, because a call that does not come back keeps its threads –
+    // queue length 0 with a consumer that asks (one input record, no input at all)
+    for c in ["X 1 0 1 0 0 - 0 0", "X 2 0 3 1 0 - 0 0", "X 1 0 1 0 1 - - 0", "X 1 0 2 0 0 0 - 0", "X 0 1 1 0 0 - - 0", "X 0 2 0 0 0 - 0 0", "X 1 0 1 0 0 - - 0", "X 2 0 0 0 0 - - 0"] {
+        out.push(format!("{} {}", c, rng.next() % 1_000_000));
+    }
 }
 
 pub fn par_y(rng: &mut Rng, size: usize, out: &mut Vec<String>) {
